@@ -579,6 +579,15 @@ pub fn run(args: &Args) {
         }
     }
     emit(&mut run, "ext_set 48862:1f000000 2 aa".into(), true);
+    if args.tier_thorough {
+        // every one-byte-header block of length ≤ 2 (all header bytes, all overrun shapes) × three ids
+        for a in 0..=255u8 { for b in 0..=255u8 { for id in [1u8, 2, 15] {
+            let e = format!("48862:{}", hex(&[a, b]));
+            emit(&mut run, format!("ext_get {e} {id}"), false);
+            emit(&mut run, format!("ext_set {e} {id} 7f"), false);
+        } } }
+        run.count_n("exhaustive_ext_blocks_len2", 65536 * 6);
+    }
 
     // ---- RTCP: logical compound packets → marshal (+ round trip, framing, reference), bytes → parse, mutations
     for i in 0..6000 * scale {
